@@ -18,7 +18,9 @@ var keys = []string{".name", ".fullname", "/gomaxprocs", "/a", "/", "/a=", "/0",
 	// near-misses of the reserved spellings: ordinary keys
 	"/GOMAXPROCS", "/Gomaxprocs", "/gomaxprocs=", ".Name", ".NAME", ".fullName", "name", "/.name",
 	// keys with an inner '/' or '=': no single segment can carry them
-	"/a/0", "/a/", "//a", "/a=1/0", "/0/a"}
+	"/a/0", "/a/", "//a", "/a=1/0", "/0/a",
+	// keys carrying the metacharacters of other syntaxes the key may pass through (printf, regexp, glob)
+	"/a%", "/%a", "/a%%", "/a%d", "/a*", "/a.", "/[a]", "/a\\"}
 
 var excludes = [][]string{
 	{"/a"}, {".name"}, {"/gomaxprocs"}, {"/a", "/0", ".name"}, {"k", "/"}, {"/a="}, {"/gomaxprocs", "/a"},
@@ -315,7 +317,8 @@ func main() {
 	words := []string{"Foo", "a", "a=1", "a=", "=", "gomaxprocs=4", "b=x-2", "0", "-7", "", "é", "a=b=c", "/",
 		"GOMAXPROCS=2", "Gomaxprocs=3", "gomaxprocs==5", ".name=x", "GOMAXPROCS",
 		// names that themselves begin with the format's line prefix (func BenchmarkBenchmarkX, hand-made Results)
-		"Benchmark", "BenchmarkSuite", "Benchmarks", "Benchmark-8", "BenchmarkBenchmark", "benchmarkX", "Benchmark=1"}
+		"Benchmark", "BenchmarkSuite", "Benchmarks", "Benchmark-8", "BenchmarkBenchmark", "benchmarkX", "Benchmark=1",
+		"a%=50", "%a=1", "a%%=2", "a%d=3", "a*=4", "a.=5", "[a]=6", "a\\=7", "a=%", "ab=1"}
 	n := hx.N(20000, 400000)
 	for i := 0; i < n; i++ {
 		var name []byte
